@@ -211,14 +211,14 @@ func runC13(c *core.Ctx) {
 				} else {
 					a.viol(fname(isExp)+" comparison", r, "IsExpired is not `physical(lastTS) >= physical(lockTS)+TTL` (operator "+b.Op.String()+"): it disagrees with UntilExpired <= 0 at the boundary")
 				}
-			} else if cst, ok := r.Results[0].(*ssa.Const); ok {
+			} else if cst, ok := asConst(r.Results[0]); ok {
 				a.check(cst.Value.String() == "true", fname(isExp)+" without cached ts", r, "expired", "IsExpired answers `not expired` when no timestamp is cached while UntilExpired answers 0 (expired)")
 			}
 		}
 		for _, r := range returnsOf(until) {
 			if b, ok := r.Results[0].(*ssa.BinOp); ok && b.Op.String() == "-" {
 				untS, untB = strings.Join(pv.Desc(b.X), "|"), strings.Join(pv.Desc(b.Y), "|")
-			} else if cst, ok := r.Results[0].(*ssa.Const); ok {
+			} else if cst, ok := asConst(r.Results[0]); ok {
 				a.check(cst.Int64() <= 0, fname(until)+" without cached ts", r, "0", "UntilExpired answers a positive remaining time without a cached ts while IsExpired answers expired")
 			}
 		}
@@ -255,7 +255,7 @@ func runC13(c *core.Ctx) {
 			if len(r.Results) != 2 || !core.Feasible(r) {
 				continue
 			}
-			if cst, ok := r.Results[0].(*ssa.Const); ok && cst.Int64() == 0 {
+			if cst, ok := asConst(r.Results[0]); ok && cst.Int64() == 0 {
 				// error exits: error result must not be the nil constant
 				a.check(!isNil(r.Results[1]), fname(gtfc)+" zero ts only with an error", r, "", "returns ts 0 with a nil error")
 			}
